@@ -237,6 +237,9 @@ func (r *receiver) run(ctx context.Context) error {
 				var metaOnly bool
 				if metadataTransfer {
 					if path == metadataPath {
+						// not transferred, but it still occupies an id in the
+						// sender's numbering
+						i++
 						continue
 					}
 					n := p.Stat.SizeVT()
